@@ -189,9 +189,9 @@ def polder_van_santen_three_components(f1, f2, eps0, eps1, eps2, A1, A2):
             return polder_van_santen_three_components(f1, f2, eps0, eps1, eps2, A1, A2)
         return np.vectorize(func)(f1, f2)
 
-    # rough first guess
+    # first guess (the linear mixture is not good enough, the solver may converge to an unphysical root)
     f0 = 1 - f1 - f2
-    eps_eff0 = f1 * eps1 + f2 * eps2 + f0 * eps0
+    eps_eff0 = polder_van_santen(f0, polder_van_santen(f2 / (f1 + f2), eps1, eps2), eps0)
 
     def pvs_equation(x):
         eps_eff = complex(x[0], x[1])
